@@ -63,12 +63,12 @@ pub fn ppreal(a: &[&str]) -> Option<String> {
             })))
         }};
     }
-    let (minlen, r) = match a[0] {
+    let (minlen, r): (usize, std::thread::Result<Option<usize>>) = match a[0] {
         #[cfg(memchr_verif_emu_neon)]
         "neon" => with_isa!(memchr::arch::aarch64::neon::packedpair),
         #[cfg(memchr_verif_emu_simd128)]
         "simd128" => with_isa!(memchr::arch::wasm32::simd128::packedpair),
-        #[cfg(not(any(memchr_verif_emu_neon, memchr_verif_emu_simd128)))]
+        #[cfg(not(any(memchr_verif_emu_neon, memchr_verif_emu_simd128, memchr_verif_emu_other)))]
         "sse2" => {
             let f = memchr::arch::x86_64::sse2::packedpair::Finder::with_pair(&needle, pair)?;
             let m = f.min_haystack_len();
@@ -76,7 +76,7 @@ pub fn ppreal(a: &[&str]) -> Option<String> {
                 if pre { f.find_prefilter(ph.slice()) } else { f.find(ph.slice(), pn.slice()) }
             })))
         }
-        #[cfg(not(any(memchr_verif_emu_neon, memchr_verif_emu_simd128)))]
+        #[cfg(not(any(memchr_verif_emu_neon, memchr_verif_emu_simd128, memchr_verif_emu_other)))]
         "avx2" => {
             let f = memchr::arch::x86_64::avx2::packedpair::Finder::with_pair(&needle, pair)?;
             let m = f.min_haystack_len();
@@ -149,7 +149,7 @@ pub fn pairreport(a: &[&str]) -> Option<String> {
     isa!("neon", memchr::arch::aarch64::neon::packedpair);
     #[cfg(memchr_verif_emu_simd128)]
     isa!("simd128", memchr::arch::wasm32::simd128::packedpair);
-    #[cfg(not(any(memchr_verif_emu_neon, memchr_verif_emu_simd128)))]
+    #[cfg(not(any(memchr_verif_emu_neon, memchr_verif_emu_simd128, memchr_verif_emu_other)))]
     {
         isa!("sse2", memchr::arch::x86_64::sse2::packedpair);
         isa!("avx2", memchr::arch::x86_64::avx2::packedpair);
